@@ -1,13 +1,16 @@
 package main
 
-// E7: lockset over structured code. Walks a function body in program order tracking whether a given
-// mutex is held (Lock/Unlock/RLock/RUnlock calls and `defer Unlock`), joining branches conservatively,
-// and reports every access to the guarded fields with the lock state at that point.
+// E7: lockset over structured code. Walks a function body in program order tracking, per base
+// expression of the guarded struct type (the receiver, a parameter, `c.incoming.transport`, …), whether
+// that object's mutex is held (Lock/Unlock/RLock/RUnlock calls and deferred unlocks), joining branches
+// conservatively, and reports every access to the guarded fields with the lock state at that point.
+// Bases are compared textually, resolved through go/types to the guarded type.
 
 import (
 	"go/ast"
 	"go/token"
 	"go/types"
+	"sort"
 	"strings"
 )
 
@@ -17,18 +20,33 @@ type lockAccess struct {
 	Write bool
 	Pos   token.Pos
 	Func  string
+	Base  string
 }
 
 type lockWalker struct {
 	info     *types.Info
-	mutex    string          // textual mutex expression relative to the receiver, e.g. "s.mu" → matched as "<recv>.mu"
+	typeName string // guarded struct type
+	typePkg  *types.Package
+	mutex    string          // mutex field name
 	guarded  map[string]bool // field names
 	recvName string
 	accesses []lockAccess
-	calls    []lockCall // calls of methods on the receiver, with lock state
+	calls    []lockCall // calls of methods on a base of the guarded type, with lock state
 	fn       string
 	problems []string
-	deferred bool
+	deferred map[string]bool // bases with a deferred unlock
+	// exits: lock state (of the receiver) at every function exit together with the first returned expression
+	exits []lockExit
+	// summaries: methods of the guarded type whose exit lock state differs from their entry state in
+	// the correlated form "still held iff first result is nil" (value "condNil")
+	summaries map[string]string
+}
+
+type lockExit struct {
+	Held    bool
+	Res0Nil bool // first result is the literal nil
+	HasRes  bool
+	Pos     token.Pos
 }
 
 type lockCall struct {
@@ -38,25 +56,128 @@ type lockCall struct {
 	Func   string
 }
 
+// lockState: the set of bases whose mutex is held, encoded as a sorted "\x00"-joined string so that the
+// state is a value.
 type lockState struct {
-	held bool
+	held string
 	dead bool // control does not reach here
+	// cond != "": the lock of condBase is held iff the local variable cond is nil (set by a call to a
+	// condNil method); until a test on that variable resolves it, the lock counts as not held.
+	cond     string
+	condBase string
 }
 
-func (w *lockWalker) isMutexCall(call *ast.CallExpr) (op string, ok bool) {
+func (s lockState) has(base string) bool {
+	if base == "" {
+		return false
+	}
+	for _, b := range strings.Split(s.held, "\x00") {
+		if b == base {
+			return true
+		}
+	}
+	return false
+}
+
+func (s lockState) with(base string, on bool) lockState {
+	set := map[string]bool{}
+	for _, b := range strings.Split(s.held, "\x00") {
+		if b != "" {
+			set[b] = true
+		}
+	}
+	if on {
+		set[base] = true
+	} else {
+		delete(set, base)
+	}
+	keys := make([]string, 0, len(set))
+	for k := range set {
+		keys = append(keys, k)
+	}
+	sort.Strings(keys)
+	s.held = strings.Join(keys, "\x00")
+	return s
+}
+
+func join(a, b lockState) lockState {
+	if a.dead {
+		return b
+	}
+	if b.dead {
+		return a
+	}
+	out := lockState{}
+	for _, x := range strings.Split(a.held, "\x00") {
+		if x != "" && b.has(x) {
+			out = out.with(x, true)
+		}
+	}
+	if a.cond != "" && a.cond == b.cond && a.condBase == b.condBase {
+		out.cond, out.condBase = a.cond, a.condBase
+	}
+	return out
+}
+
+func (w *lockWalker) isGuardedType(t types.Type) bool {
+	if p, isP := t.(*types.Pointer); isP {
+		t = p.Elem()
+	}
+	n, isN := t.(*types.Named)
+	return isN && n.Obj().Name() == w.typeName && n.Obj().Pkg() == w.typePkg
+}
+
+// baseOf: if e denotes an object of the guarded type (value or pointer), or of a struct that embeds it,
+// its textual form.
+func (w *lockWalker) baseOf(e ast.Expr) (string, bool) {
+	e = ast.Unparen(e)
+	var t types.Type
+	if tv, ok := w.info.Types[e]; ok {
+		t = tv.Type
+	} else if id, isId := e.(*ast.Ident); isId {
+		if obj := w.info.Uses[id]; obj != nil {
+			t = obj.Type()
+		}
+	}
+	if t == nil {
+		return "", false
+	}
+	if w.isGuardedType(t) {
+		return types.ExprString(e), true
+	}
+	if p, isP := t.(*types.Pointer); isP {
+		t = p.Elem()
+	}
+	if n, isN := t.(*types.Named); isN {
+		if st, isS := n.Underlying().(*types.Struct); isS {
+			for i := 0; i < st.NumFields(); i++ {
+				if f := st.Field(i); f.Embedded() && w.isGuardedType(f.Type()) {
+					return types.ExprString(e), true
+				}
+			}
+		}
+	}
+	return "", false
+}
+
+func (w *lockWalker) isMutexCall(call *ast.CallExpr) (op, base string, ok bool) {
 	sel, isSel := call.Fun.(*ast.SelectorExpr)
 	if !isSel {
-		return "", false
+		return "", "", false
 	}
 	switch sel.Sel.Name {
 	case "Lock", "Unlock", "RLock", "RUnlock":
 	default:
-		return "", false
+		return "", "", false
 	}
-	if types.ExprString(sel.X) == w.recvName+"."+w.mutex {
-		return sel.Sel.Name, true
+	msel, isSel := ast.Unparen(sel.X).(*ast.SelectorExpr)
+	if !isSel || msel.Sel.Name != w.mutex {
+		return "", "", false
 	}
-	return "", false
+	if b, isBase := w.baseOf(msel.X); isBase {
+		return sel.Sel.Name, b, true
+	}
+	return "", "", false
 }
 
 func (w *lockWalker) scanExpr(e ast.Node, st lockState, write bool) {
@@ -68,14 +189,18 @@ func (w *lockWalker) scanExpr(e ast.Node, st lockState, write bool) {
 		case *ast.FuncLit:
 			return false // closures run later; analysed separately by callers if needed
 		case *ast.SelectorExpr:
-			if id, ok := n.X.(*ast.Ident); ok && id.Name == w.recvName && w.guarded[n.Sel.Name] {
-				w.accesses = append(w.accesses, lockAccess{Field: n.Sel.Name, Held: st.held, Write: write, Pos: n.Pos(), Func: w.fn})
+			if w.guarded[n.Sel.Name] {
+				if b, ok := w.baseOf(n.X); ok {
+					if s := w.info.Selections[n]; s == nil || s.Kind() == types.FieldVal {
+						w.accesses = append(w.accesses, lockAccess{Field: n.Sel.Name, Held: st.has(b), Write: write, Pos: n.Pos(), Func: w.fn, Base: b})
+					}
+				}
 			}
 		case *ast.CallExpr:
 			if sel, ok := n.Fun.(*ast.SelectorExpr); ok {
-				if id, ok := sel.X.(*ast.Ident); ok && id.Name == w.recvName {
-					if _, isM := w.isMutexCall(n); !isM {
-						w.calls = append(w.calls, lockCall{Method: sel.Sel.Name, Held: st.held, Pos: n.Pos(), Func: w.fn})
+				if b, ok := w.baseOf(sel.X); ok {
+					if s := w.info.Selections[sel]; s != nil && s.Kind() == types.MethodVal {
+						w.calls = append(w.calls, lockCall{Method: sel.Sel.Name, Held: st.has(b), Pos: n.Pos(), Func: w.fn})
 					}
 				}
 			}
@@ -84,14 +209,39 @@ func (w *lockWalker) scanExpr(e ast.Node, st lockState, write bool) {
 	})
 }
 
-func join(a, b lockState) lockState {
-	if a.dead {
-		return b
+// nilTest recognises `x != nil` / `x == nil` on a plain identifier.
+func nilTest(e ast.Expr) (name string, isNotNil bool, ok bool) {
+	be, isB := ast.Unparen(e).(*ast.BinaryExpr)
+	if !isB || (be.Op != token.NEQ && be.Op != token.EQL) {
+		return "", false, false
 	}
-	if b.dead {
-		return a
+	x, y := ast.Unparen(be.X), ast.Unparen(be.Y)
+	if id, isId := y.(*ast.Ident); !isId || id.Name != "nil" {
+		return "", false, false
 	}
-	return lockState{held: a.held && b.held}
+	id, isId := x.(*ast.Ident)
+	if !isId {
+		return "", false, false
+	}
+	return id.Name, be.Op == token.NEQ, true
+}
+
+// summarisedCall: `base.m(...)` where m has a conditional lock summary.
+func (w *lockWalker) summarisedCall(e ast.Expr) (kind, base string, ok bool) {
+	call, isCall := ast.Unparen(e).(*ast.CallExpr)
+	if !isCall {
+		return "", "", false
+	}
+	sel, isSel := call.Fun.(*ast.SelectorExpr)
+	if !isSel {
+		return "", "", false
+	}
+	b, isBase := w.baseOf(sel.X)
+	if !isBase {
+		return "", "", false
+	}
+	s, has := w.summaries[sel.Sel.Name]
+	return s, b, has
 }
 
 func (w *lockWalker) block(list []ast.Stmt, st lockState) lockState {
@@ -108,15 +258,18 @@ func (w *lockWalker) stmt(s ast.Stmt, st lockState) lockState {
 	switch s := s.(type) {
 	case *ast.ExprStmt:
 		if call, ok := s.X.(*ast.CallExpr); ok {
-			if op, isM := w.isMutexCall(call); isM {
+			if op, base, isM := w.isMutexCall(call); isM {
 				switch op {
 				case "Lock", "RLock":
-					if st.held {
-						w.problems = append(w.problems, "lock acquired while already held")
+					if st.has(base) {
+						w.problems = append(w.problems, "lock of "+base+" acquired while already held")
 					}
-					st.held = true
+					st = st.with(base, true)
 				default:
-					st.held = false
+					st = st.with(base, false)
+				}
+				if st.condBase == base {
+					st.cond, st.condBase = "", ""
 				}
 				return st
 			}
@@ -126,11 +279,29 @@ func (w *lockWalker) stmt(s ast.Stmt, st lockState) lockState {
 				return st
 			}
 		}
+		if _, _, ok := w.summarisedCall(s.X); ok {
+			w.problems = append(w.problems, "result of a method with a conditional lock summary is discarded")
+		}
 		w.scanExpr(s.X, st, false)
 	case *ast.DeferStmt:
-		if op, isM := w.isMutexCall(s.Call); isM && (op == "Unlock" || op == "RUnlock") {
-			w.deferred = true // held until return
+		if op, base, isM := w.isMutexCall(s.Call); isM && (op == "Unlock" || op == "RUnlock") {
+			w.deferred[base] = true // held until return
 			return st
+		}
+		if fl, ok := s.Call.Fun.(*ast.FuncLit); ok {
+			found := false
+			ast.Inspect(fl.Body, func(n ast.Node) bool {
+				if c, ok := n.(*ast.CallExpr); ok {
+					if op, base, isM := w.isMutexCall(c); isM && (op == "Unlock" || op == "RUnlock") {
+						w.deferred[base] = true
+						found = true
+					}
+				}
+				return true
+			})
+			if found {
+				return st
+			}
 		}
 		w.scanExpr(s.Call, st, false)
 	case *ast.AssignStmt:
@@ -140,6 +311,16 @@ func (w *lockWalker) stmt(s ast.Stmt, st lockState) lockState {
 		for _, l := range s.Lhs {
 			w.scanExpr(l, st, true)
 		}
+		if len(s.Rhs) == 1 {
+			if kind, base, ok := w.summarisedCall(s.Rhs[0]); ok && kind == "condNil" {
+				if id, isId := s.Lhs[0].(*ast.Ident); isId && st.has(base) {
+					st = st.with(base, false)
+					st.cond, st.condBase = id.Name, base
+				} else {
+					w.problems = append(w.problems, "call of a method with a conditional lock summary in an unsupported form")
+				}
+			}
+		}
 	case *ast.IncDecStmt:
 		w.scanExpr(s.X, st, true)
 	case *ast.DeclStmt:
@@ -148,6 +329,14 @@ func (w *lockWalker) stmt(s ast.Stmt, st lockState) lockState {
 		for _, r := range s.Results {
 			w.scanExpr(r, st, false)
 		}
+		ex := lockExit{Held: st.has(w.recvName), Pos: s.Pos()}
+		if len(s.Results) > 0 {
+			ex.HasRes = true
+			if id, ok := ast.Unparen(s.Results[0]).(*ast.Ident); ok && id.Name == "nil" {
+				ex.Res0Nil = true
+			}
+		}
+		w.exits = append(w.exits, ex)
 		st.dead = true
 	case *ast.BranchStmt:
 		// break/continue: approximated as leaving the current block with the same state
@@ -161,10 +350,18 @@ func (w *lockWalker) stmt(s ast.Stmt, st lockState) lockState {
 			st = w.stmt(s.Init, st)
 		}
 		w.scanExpr(s.Cond, st, false)
-		a := w.block(s.Body.List, st)
-		b := st
+		sa, sb := st, st
+		if st.cond != "" {
+			if name, notNil, ok := nilTest(s.Cond); ok && name == st.cond {
+				base := st.condBase
+				sa, sb = st.with(base, !notNil), st.with(base, notNil)
+				sa.cond, sa.condBase, sb.cond, sb.condBase = "", "", "", ""
+			}
+		}
+		a := w.block(s.Body.List, sa)
+		b := sb
 		if s.Else != nil {
-			b = w.stmt(s.Else, st)
+			b = w.stmt(s.Else, sb)
 		}
 		return join(a, b)
 	case *ast.ForStmt:
@@ -178,6 +375,9 @@ func (w *lockWalker) stmt(s ast.Stmt, st lockState) lockState {
 		}
 		if s.Post != nil {
 			w.stmt(s.Post, st)
+		}
+		if s.Cond == nil && !hasBreakOut(s.Body) {
+			st.dead = true // `for { … }` without a break never falls through
 		}
 		return st
 	case *ast.RangeStmt:
@@ -229,6 +429,11 @@ func (w *lockWalker) stmt(s ast.Stmt, st lockState) lockState {
 	case *ast.GoStmt:
 		// the goroutine body runs without the caller's lock
 		w.scanExpr(s.Call.Fun, lockState{}, false)
+		if fl, ok := s.Call.Fun.(*ast.FuncLit); ok {
+			saved := w.exits
+			w.block(fl.Body.List, lockState{})
+			w.exits = saved
+		}
 	case *ast.LabeledStmt:
 		return w.stmt(s.Stmt, st)
 	case *ast.SendStmt:
@@ -238,59 +443,96 @@ func (w *lockWalker) stmt(s ast.Stmt, st lockState) lockState {
 	return st
 }
 
-// walkLockset analyses one method. entryHeld: the lock is held on entry (…Locked helpers).
-func walkLockset(fi *FuncInfo, mutex string, guarded map[string]bool, entryHeld bool) *lockWalker {
-	w := &lockWalker{info: fi.Pkg.TypesInfo, mutex: mutex, guarded: guarded, fn: fi.Name()}
+// walkLockset analyses one function. typeName names the guarded struct type (in fi's package);
+// entryHeld: the receiver's lock is held on entry (…Locked helpers).
+func walkLockset(fi *FuncInfo, typeName, mutex string, guarded map[string]bool, entryHeld bool, summaries map[string]string) *lockWalker {
+	w := &lockWalker{info: fi.Pkg.TypesInfo, typeName: typeName, typePkg: fi.Pkg.Types, mutex: mutex, guarded: guarded, fn: fi.Name(), summaries: summaries, deferred: map[string]bool{}}
 	if fi.Decl.Recv != nil && len(fi.Decl.Recv.List) == 1 && len(fi.Decl.Recv.List[0].Names) == 1 {
 		w.recvName = fi.Decl.Recv.List[0].Names[0].Name
 	}
-	if w.recvName == "" {
+	if fi.Decl.Body == nil {
 		return w
 	}
-	w.block(fi.Decl.Body.List, lockState{held: entryHeld})
-	if w.deferred {
-		// with `defer mu.Unlock()` directly after Lock the lock is held to the end: accesses after the Lock are held
-		_ = strings.TrimSpace
+	st := lockState{}
+	if entryHeld && w.recvName != "" {
+		st = st.with(w.recvName, true)
+	}
+	end := w.block(fi.Decl.Body.List, st)
+	if !end.dead {
+		w.exits = append(w.exits, lockExit{Held: end.has(w.recvName), Pos: fi.Decl.Body.Rbrace})
+	}
+	if w.deferred[w.recvName] {
+		// the deferred Unlock runs at every exit
+		for i := range w.exits {
+			w.exits[i].Held = false
+		}
 	}
 	return w
 }
 
-// varsOfType returns the names of parameters and locals of fi (other than the receiver) whose type is
-// *typeName or typeName (same package as fi).
-func varsOfType(fi *FuncInfo, typeName string) []string {
-	seen := map[string]bool{}
-	var out []string
-	recv := ""
-	if fi.Decl.Recv != nil && len(fi.Decl.Recv.List) == 1 && len(fi.Decl.Recv.List[0].Names) == 1 {
-		recv = fi.Decl.Recv.List[0].Names[0].Name
+// exitSummary classifies the exits of a method analysed with the given entry state:
+// "preserve" (every exit has the entry state), "condNil" (entered held; exits that released the lock
+// return a non-nil first result and exits that kept it return nil), or "changes" (anything else).
+func exitSummary(w *lockWalker, entryHeld bool) string {
+	same := true
+	for _, e := range w.exits {
+		if e.Held != entryHeld {
+			same = false
+		}
 	}
-	ast.Inspect(fi.Decl, func(n ast.Node) bool {
-		id, ok := n.(*ast.Ident)
-		if !ok {
-			return true
+	if same {
+		return "preserve"
+	}
+	if entryHeld {
+		ok := true
+		for _, e := range w.exits {
+			if !e.HasRes || e.Held != e.Res0Nil {
+				ok = false
+			}
 		}
-		v, ok := fi.Pkg.TypesInfo.Defs[id].(*types.Var)
-		if !ok || v.IsField() || id.Name == recv || id.Name == "_" {
-			return true
+		if ok {
+			return "condNil"
 		}
-		t := v.Type()
-		if p, ok := t.(*types.Pointer); ok {
-			t = p.Elem()
-		}
-		if n, ok := t.(*types.Named); ok && n.Obj().Name() == typeName && n.Obj().Pkg() == fi.Pkg.Types && !seen[id.Name] {
-			seen[id.Name] = true
-			out = append(out, id.Name)
-		}
-		return true
-	})
-	return out
+	}
+	return "changes"
 }
 
-// walkLocksetVar analyses accesses through a named variable (not the receiver) of the guarded type.
-func walkLocksetVar(fi *FuncInfo, varName, mutex string, guarded map[string]bool) *lockWalker {
-	w := &lockWalker{info: fi.Pkg.TypesInfo, mutex: mutex, guarded: guarded, fn: fi.Name(), recvName: varName}
-	if fi.Decl.Body != nil {
-		w.block(fi.Decl.Body.List, lockState{})
+// hasBreakOut: the loop body contains a break that can leave this loop (an unlabelled break not nested
+// in an inner for/switch/select, or any labelled break or goto).
+func hasBreakOut(body *ast.BlockStmt) bool {
+	found := false
+	var visit func(n ast.Node, nested bool)
+	visit = func(n ast.Node, nested bool) {
+		ast.Inspect(n, func(m ast.Node) bool {
+			if m == n {
+				return true
+			}
+			switch m := m.(type) {
+			case *ast.FuncLit:
+				return false
+			case *ast.ForStmt:
+				visit(m.Body, true)
+				return false
+			case *ast.RangeStmt:
+				visit(m.Body, true)
+				return false
+			case *ast.SwitchStmt:
+				visit(m.Body, true)
+				return false
+			case *ast.TypeSwitchStmt:
+				visit(m.Body, true)
+				return false
+			case *ast.SelectStmt:
+				visit(m.Body, true)
+				return false
+			case *ast.BranchStmt:
+				if m.Tok == token.GOTO || (m.Tok == token.BREAK && (m.Label != nil || !nested)) {
+					found = true
+				}
+			}
+			return true
+		})
 	}
-	return w
+	visit(body, false)
+	return found
 }
